@@ -1,7 +1,7 @@
 (* Tree/InvProofsOp2Real.v — C03: RealInv over the alphabet op2 on the regenerated tables RT ([F] RefChars_real). *)
 From AV Require Import Base.Bytes Base.Outcome Hash.HashModel Spec.SpecOps Spec.SpecReal Tree.Heap Tree.Ops Tree.Script
   Tree.Inv Tree.InvProofs Tree.InvProofsChars Tree.InvProofsOrigins3 Tree.InvProofsReal Tree.InvProofsRealTables
-  Tree.Script2 Tree.InvLoad Tree.InvProofsOp2 Tree.InvProofsOp2Lift Tree.InvEBase Tree.InvProofsLoadLive Tree.InvProofsOp2Live.
+  Tree.Script2 Tree.InvLoad Tree.InvProofsOp2 Tree.InvProofsOp2Lift Tree.InvEBase Tree.InvProofsLoadLive Tree.InvProofsOp2Live Tree.InvProofsOp2Rej.
 From AV Require Xml.TablesOk Xml.TablesOkReal.
 Open Scope string_scope.
 Open Scope list_scope.
@@ -48,5 +48,22 @@ Theorem RealInvL_histories2_real l w' :
   run_ops2 RT tab_el tab_at tab_en check_fn float_parse float_fmt LATEST name_index name_definition_ref
            attr_schema_location root_attrs l empty_world = Val w' -> RealInvL RT w'.
 Proof. apply RealInvL_histories2; [exact RefChars_real|exact TablesOkReal.tables_ok_real|apply RealInvL_empty]. Qed.
+
+(* the final form: the classes are failed re-parenting, a duplicate that fails half-way, and Known_load_shared *)
+Theorem RealInvL_step2_real_full o w r w' :
+  RealInvL RT w ->
+  Known_real2 RT tab_el tab_at tab_en check_fn float_parse float_fmt LATEST name_index name_definition_ref
+              attr_schema_location root_attrs w o = false ->
+  Known_load_shared RT tab_el tab_at tab_en check_fn float_parse LATEST name_definition_ref w o = false ->
+  run_op2 RT tab_el tab_at tab_en check_fn float_parse float_fmt LATEST name_index name_definition_ref
+          attr_schema_location root_attrs o w = Val (r, w') -> RealInvL RT w'.
+Proof. apply RealInvL_step2_full; [exact RefChars_real|exact TablesOkReal.tables_ok_real]. Qed.
+
+Theorem RealInvL_histories2_real_full l w' :
+  clean_ops2_full RT tab_el tab_at tab_en check_fn float_parse float_fmt LATEST name_index name_definition_ref
+                  attr_schema_location root_attrs l empty_world = true ->
+  run_ops2 RT tab_el tab_at tab_en check_fn float_parse float_fmt LATEST name_index name_definition_ref
+           attr_schema_location root_attrs l empty_world = Val w' -> RealInvL RT w'.
+Proof. apply RealInvL_histories2_full; [exact RefChars_real|exact TablesOkReal.tables_ok_real|apply RealInvL_empty]. Qed.
 
 End Real2.
